@@ -69,7 +69,7 @@ def gen_case(rng):
         if rng.random() < 0.6:
             # (a well-conditioned objective under the custom support: primal against dual is then a meaningful comparison)
             f = rm.gen_sig(rng, n=n, near=False)
-    return {'f': f, 'box': box, 'ell': ell, 'mod_supp': mod}
+    return {'f': f, 'box': box, 'ell': ell, 'mod_supp': mod, 'noncompact': box is not None and rng.random() < 0.6}
 
 
 def build(case, form):
@@ -91,6 +91,17 @@ def audit_case(ctx, rng, c, pinned=None):
         except Exception:  # noqa: BLE001
             continue
         vals[form] = rm.solve_ecos(prob)
+    if c['box'] is not None and c.get('noncompact'):
+        # the dual form once more under the non-default epigraph (non-compact) dual rows: same bound, same guarantees
+        import sageopt.coniclifts as cl
+        cl.compact_sage_duals(False)
+        try:
+            vals['dual (compact_dual=False)'] = rm.solve_ecos(build(c, 'dual'))
+            ctx.count('audit:dual-noncompact')
+        except Exception:  # noqa: BLE001
+            pass
+        finally:
+            cl.compact_sage_duals(True)
     ctx.case({'stream': 'audit', 'case': c})
     ctx.count('stream:audit')
     pts = rm.box_points(rng, n, c['box'], 30) + ([list(pinned)] if pinned else [])
@@ -105,14 +116,16 @@ def audit_case(ctx, rng, c, pinned=None):
             x = min(pts, key=lambda z: rm.sig_eval_leaf(c['f'], z))
             ctx.violation('bound: the %s relaxation value %.8g exceeds f(x) = %.8g at the point x = %s of X' % (form, v, fmin, x),
                           {'stream': 'audit', 'form': form, 'case': c, 'value': v, 'point': x})
-        if form == 'dual' and v == math.inf:
+        if form.startswith('dual') and v == math.inf:
             ctx.violation('bound: the dual relaxation over a nonempty X is reported infeasible (+inf)',
                           {'stream': 'audit', 'form': form, 'case': c})
         if form == 'primal' and v == math.inf:
             ctx.violation('bound: the primal relaxation (a maximisation) is reported +inf although f is finite on X',
                           {'stream': 'audit', 'form': form, 'case': c})
-    if all(k in vals and vals[k][0] == 'solved' for k in ('primal', 'dual')):
-        vp, vd = vals['primal'][1], vals['dual'][1]
+    for dkey in ('dual', 'dual (compact_dual=False)'):
+        if not all(k in vals and vals[k][0] == 'solved' for k in ('primal', dkey)):
+            continue
+        vp, vd = vals['primal'][1], vals[dkey][1]
         rows_ = [[F(x) for x in r] for r in c['f']['alpha']]
         near = any(max(abs(a - b) for a, b in zip(r1, r2)) < F(1, 1000) for i, r1 in enumerate(rows_) for r2 in rows_[i + 1:])
         if vp > vd + 1e-5 * max(1.0, abs(vd)) and not (math.isinf(vp) and math.isinf(vd)) and near:
@@ -122,7 +135,7 @@ def audit_case(ctx, rng, c, pinned=None):
             # both forms are compared with exactly; the VALUES are only judged against f (above), which is robust
             ctx.incon('audit: primal above dual on an instance with near-duplicate exponents (left to the conditioning of the dual)')
         elif vp > vd + 1e-5 * max(1.0, abs(vd)) and not (math.isinf(vp) and math.isinf(vd)):
-            ctx.violation('weak duality: primal value %.8g exceeds dual value %.8g' % (vp, vd), {'stream': 'audit', 'case': c})
+            ctx.violation('weak duality: primal value %.8g exceeds %s value %.8g' % (vp, dkey, vd), {'stream': 'audit', 'case': c})
         elif math.isfinite(vp) and math.isfinite(vd):
             if abs(vp - vd) > 1e-4 * max(1.0, abs(vd)):
                 ctx.incon('audit: finite primal and dual values differ by more than 1e-4 (strong duality is only observed)')
